@@ -3,8 +3,10 @@
 #include "confuse.h"
 int g_initdef_calls;
 cfg_t *g_initdef_arg;
+extern int g_initdef_flags_seen;      /* ghost: the context flags at the time of the call */
 void cfg_init_defaults(cfg_t *cfg)
 {
 	if (g_initdef_calls < 1000) g_initdef_calls++;
 	g_initdef_arg = cfg;
+	g_initdef_flags_seen = cfg ? cfg->flags : 0;
 }
